@@ -726,7 +726,7 @@ pub fn cmd_spec(args: &[String]) {
         let (ast, f): (Ast, &str) = if is_family {
             (family[id as usize].0.clone(), family[id as usize].1)
         } else {
-            let f = *r.pick(&flagsets);
+            let f = if class_mode && r.chance(2, 5) { *r.pick(&["v", "iv", "iv"]) } else { *r.pick(&flagsets) };
             let depth = if r.chance(1, 5) { 3 } else { 1 + r.below(2) as u32 };
             let mut g = G { r: &mut r, unicode: f.contains('u'), vmode: f.contains('v'), ngroups_seen: 0, names_seen: vec![] };
             if class_mode && g.vmode && g.r.chance(2, 3) {
@@ -809,6 +809,18 @@ pub fn cmd_spec(args: &[String]) {
         }
         writeln!(w, "P {} {} {} {} {}", id, crate::api_cps_hex(&pat), if f.is_empty() { "-" } else { f }, total, (unicode || vmode) as u8).unwrap();
         writeln!(w, "A {}", toks).unwrap();
+        // class mode, v-mode class expression: the IR the parser builds, for the model of the class set evaluation
+        if class_mode {
+            if let Ast::Seq(v) = &ast {
+                if let (3, Some(Ast::VClass(_))) = (v.len(), v.get(1)) {
+                    if let Ok(ire) = regress::backends::try_parse(pat.chars().map(|c| c as u32), regress::Flags::from(f)) {
+                        let mut t = String::new();
+                        crate::dump::node_tokens(&ire.node, &mut t);
+                        writeln!(w, "J {}", t).unwrap();
+                    }
+                }
+            }
+        }
         let nhays = if is_family { FAMILY_HAYS.len() as u64 } else if class_mode { class_probes.len() as u64 } else { nh };
         for hi in 0..nhays {
             if is_family {
